@@ -284,7 +284,8 @@ Lemma ws_nul_not_skipped : is_ascii_ws x00 = false /\ byte_in x00 white_space = 
 Proof. split; reflexivity. Qed.
 
 (* ---------- the defect that was repaired (commit c049d3a) ----------
-   s8W-" denotes 2^32: the multiplication check passes (50529027 * 85 = 4294967295) and the addition of the
-   last digit exceeded u32; the repaired code reports an error. *)
+   The five characters s 8 W - and a double quote denote 2^32: the multiplication check passes
+   (50529027 * 85 = 4294967295) and the addition of the last digit exceeded u32; the repaired code reports
+   an error. *)
 Lemma a85_overflow_is_error : A85.decode (bs "s8W-""~>") = Err EA85.
 Proof. vm_compute. reflexivity. Qed.
